@@ -188,15 +188,23 @@ RulesOwnedBy(id, pairs) == SelectSeq(pairs, LAMBDA pr : pr.o = id)
 OnlyRules(pairs) == [i \in 1..Len(pairs) |-> pairs[i].r]
 PassesOf(P) == Passes(InitialFacts(P), Rules(P))
 
+\* `tw`: a TWIN of the first rule owned by somebody else - the same fact is then derived in the same pass
+\* under two origins, and both copies belong to the world (who sees the fact depends on which copy)
+PassPolicies == {AllowTrue, Pol("allow", <<Q(<<D(X)>>, {})>>), Pol("allow", <<Q(<<M(X)>>, {})>>)}
 PickPasses(sd) ==
-    \E o1 \in Owners(sd.n), o2 \in Owners(sd.n), o3 \in Owners(sd.n) \cup {NoOwner}, s2 \in ScopeMenu, s3 \in {{}, {"previous"}}, delta \in {0, 1, 6} :
+    \E o1 \in Owners(sd.n), o2 \in Owners(sd.n), o3 \in Owners(sd.n) \cup {NoOwner}, tw \in Owners(sd.n) \cup {NoOwner},
+       s2 \in ScopeMenu, s3 \in {{}, {"previous"}}, delta \in {0, 1, 6}, pol \in PassPolicies :
         LET pairs == <<[o |-> o1, r |-> R(M(X), <<F(X)>>, {})], [o |-> o2, r |-> R(D(X), <<M(X)>>, s2)]>>
                      \o (IF o3 = NoOwner THEN <<>> ELSE <<[o |-> o3, r |-> R(EA(X), <<D(X)>>, s3)]>>)
+                     \o (IF tw = NoOwner THEN <<>> ELSE <<[o |-> tw, r |-> R(M(X), <<F(X)>>, {})]>>)
             P == [blocks |-> [i \in 1..sd.n |->
                                 [MkBlock(i - 1, IF i = 1 THEN "none" ELSE <<sd.e1, sd.e2>>[i - 1], {}, <<>>, <<>>)
                                     EXCEPT !.rules = OnlyRules(RulesOwnedBy(i - 1, pairs))]],
-                  authz |-> [MkAuthz({}, <<>>, <<>>, <<AllowTrue>>) EXCEPT !.rules = OnlyRules(RulesOwnedBy(AZ, pairs))]]
+                  authz |-> [MkAuthz({}, <<>>, <<>>, <<pol, Pol("deny", <<Q(<<>>, {})>>)>>) EXCEPT !.rules = OnlyRules(RulesOwnedBy(AZ, pairs))]]
         IN /\ PassesOf(P) + delta >= 1
+           /\ tw # o1
+           /\ (tw # NoOwner /\ o3 # NoOwner) => delta = 6        \* trim: twins with the third rule only under a generous budget
+           /\ (pol # AllowTrue) => delta = 6                      \* policies that look at the world: generous budget
            /\ prog' = P
            \* the budget rides in the `scope` field of the (unused) appended block: max_iterations = Passes - 1 + delta
            /\ extb' = [NoBlock EXCEPT !.ext = "budget", !.scope = {PassesOf(P) + delta - 1}]
